@@ -204,112 +204,13 @@ def d12_3(ctx):
     cmod = ctx.model.module("pycomm3.const")
     ctx.check(hs == spec["size"], "pycomm3.const:HEADER_SIZE", cmod.symbols["HEADER_SIZE"].node if "HEADER_SIZE" in cmod.symbols else cmod.tree,
               "HEADER_SIZE equals the encapsulation header size", f"HEADER_SIZE is {hs!r}; the encapsulation header is {spec['size']} bytes", got=hs)
-    # length variable
-    length_field = [f for f in spec["fields"] if f["name"] == "length"][0]
-    len_var, fmt_ok, facts = None, False, {}
-    # header unpacked into several names at once: `a, b = struct.unpack_from(fmt, buf[, off])` - the length is the field that
-    # starts at header offset 2
-    for st in walk(fn):
-        if isinstance(st, ast.Assign) and len(st.targets) == 1 and isinstance(st.targets[0], ast.Tuple) and isinstance(st.value, ast.Call) and (call_name(st.value) or "").endswith("unpack_from") and len(st.value.args) >= 2:
-            c = st.value
-            fmt = ctx.folder.eval(c.args[0], cls.module)
-            off = ctx.folder.eval(c.args[2], cls.module) if len(c.args) > 2 else 0
-            flds = _struct_fields(fmt) if isinstance(fmt, str) else None
-            if flds is None or not isinstance(off, int) or len(flds) != len(st.targets[0].elts):
-                continue
-            hit = [(i, code) for i, (code, o, w) in enumerate(flds) if o + off == length_field["offset"]]
-            if hit and isinstance(st.targets[0].elts[hit[0][0]], ast.Name):
-                i, code = hit[0]
-                len_var = st.targets[0].elts[i].id
-                buf = atom_name(c.args[1])
-                facts = {"format": fmt, "offset": off, "field": i, "code": code}
-                fmt_ok = fmt[:1] in ("<", "=") and code == "H"
-    for st in walk(fn):
-        if len_var is not None:
-            break
-        if isinstance(st, ast.Assign) and len(st.targets) == 1 and isinstance(st.targets[0], ast.Name):
-            for c in walk(st.value):
-                if isinstance(c, ast.Call) and _reads_length(c):
-                    n = call_name(c)
-                    if n.endswith("unpack_from"):
-                        fmt = ctx.folder.eval(c.args[0], cls.module)
-                        off = ctx.folder.eval(c.args[2], cls.module) if len(c.args) > 2 else 0
-                        facts = {"format": fmt, "offset": off}
-                        fmt_ok = fmt in ("<H", "=H") and off == length_field["offset"] and isinstance(st.value, ast.Subscript) and ctx.folder.eval(st.value.slice, cls.module) == 0
-                        len_var = st.targets[0].id
-                        buf = atom_name(c.args[1])
-                    elif n.endswith("from_bytes"):
-                        sl = c.args[0]
-                        lo = ctx.folder.eval(sl.slice.lower, cls.module) if sl.slice.lower is not None else 0
-                        hi = ctx.folder.eval(sl.slice.upper, cls.module)
-                        order = ctx.folder.eval(c.args[1], cls.module) if len(c.args) > 1 else {k.arg: ctx.folder.eval(k.value, cls.module) for k in c.keywords}.get("byteorder")
-                        facts = {"slice": [lo, hi], "byteorder": order}
-                        fmt_ok = (lo, hi) == (length_field["offset"], length_field["offset"] + length_field["width"]) and order == "little"
-                        len_var = st.targets[0].id
-                        buf = atom_name(sl.value)
-    if len_var is None:
-        ctx.undecided(f"{SOCK}:Socket.receive#length-field", fn, "length variable not found")
-        return
-    ctx.check(fmt_ok, ckey(f"{SOCK}:Socket.receive", "length-field"), fn, "length = little-endian UINT at header offset 2",
-              f"length field read with {facts}; the header carries it as a little-endian UINT at offset {length_field['offset']}", **facts)
-    fold = _fold(ctx, cls.module)
-    loops = [n for n in walk(fn) if isinstance(n, ast.While)]
-    # accumulator normal form of the completion loop: G = bytes appended to the buffer by the loop so far, len0 = buffer length
-    # at loop entry.  len(buf) = len0 + G; a counter updated by +-k*len(chunk appended) is init + k*G.  The loop test, rewritten
-    # in (len0, G, length), must be  len0 + G < HEADER_SIZE + length  - whether it is spelled on the buffer or as a countdown.
-    want = Lin(1 - spec["size"], {"<len0>": 1, "<G>": 1, len_var: -1})
-    match = None
-    seen = []
-    key = ckey(f"{SOCK}:Socket.receive", "completion")
-    for lp in loops:
-        seen.append(src(lp.test))
-        appends = [x for x in walk(lp) if isinstance(x, ast.AugAssign) and isinstance(x.op, ast.Add) and atom_name(x.target) == buf]
-        if len(appends) != 1:
-            continue
-        chunk = appends[0].value
-        chunk_len = f"len({atom_name(chunk)})"
-        sub, problems = {}, []
-        for x in walk(lp):
-            if isinstance(x, ast.AugAssign) and isinstance(x.target, ast.Name) and x.target.id != buf and isinstance(x.op, (ast.Add, ast.Sub)):
-                v = x.target.id
-                d = lin(x.value, fold)
-                inits = [y for y in walk(fn) if isinstance(y, ast.Assign) and atom_name(y.targets[0]) == v and y.lineno < lp.lineno]
-                li = lin(inits[-1].value, fold) if inits else None
-                if d is None or li is None or set(d.terms) != {chunk_len} or d.const != 0:
-                    problems.append(f"`{src(x)}` does not advance `{v}` by the number of bytes just appended ({chunk_len})")
-                    continue
-                k = d.terms[chunk_len] * (1 if isinstance(x.op, ast.Add) else -1)
-                li = Lin(li.const, {("<len0>" if t == f"len({buf})" else t): c_ for t, c_ in li.terms.items()})
-                sub[v] = li + Lin(0, {"<G>": k})
-        # locals that are bound once, before the loop, to a linear combination of other names (e.g. `frame_len = HEADER_SIZE +
-        # data_len`) stand for their definition in the loop test
-        for y in walk(fn):
-            if isinstance(y, ast.Assign) and len(y.targets) == 1 and isinstance(y.targets[0], ast.Name) and y.lineno < lp.lineno and y.targets[0].id not in sub and y.targets[0].id not in (buf, len_var):
-                nm = y.targets[0].id
-                stores = [z for z in walk(fn) if isinstance(z, ast.Name) and isinstance(z.ctx, ast.Store) and z.id == nm]
-                ly = lin(y.value, fold)
-                if len(stores) == 1 and ly is not None and not any(t.startswith("len(") for t in ly.terms):
-                    sub[nm] = ly
-        c = cmp_norm(lp.test, fold, subst=sub)
-        if c is None or c[0] != "<=0":
-            continue
-        L = Lin(c[1].const, {})
-        for t, c_ in c[1].terms.items():
-            L = L + (Lin(0, {"<len0>": c_, "<G>": c_}) if t == f"len({buf})" else Lin(0, {t: c_}))
-        if len_var in L.terms or problems:
-            match = (lp, L, problems)
-    if match is None:
-        ctx.violation(key, fn, f"no accumulate loop conditioned on `{len_var}` found", loops=seen)
-    else:
-        lp, L, problems = match
-        ctx.check(L == want and not problems, key, lp, "loop continues exactly while fewer than HEADER_SIZE + length bytes have arrived",
-                  (f"{problems[0]}: the loop ends although bytes are missing when a recv returns fewer bytes than asked for" if problems else
-                   f"completion test `{src(lp.test)}` normalises to `{L} <= 0`, expected `{want} <= 0` (off-by-one or wrong header size returns a partial frame or waits for bytes that never come)"), got=repr(L), want=repr(want))
-        # the loop must grow the same buffer and the function must return it
-        grows = any(isinstance(s, ast.AugAssign) and isinstance(s.op, ast.Add) and atom_name(s.target) == buf for s in walk(lp))
-        rets = [r for r in walk(fn) if isinstance(r, ast.Return)]
-        ctx.check(grows and rets and all(r.value is not None and atom_name(r.value) == buf for r in rets), ckey(f"{SOCK}:Socket.receive", "accumulate"), lp,
-                  "chunks are appended in arrival order to the buffer that is returned", "the loop does not append to the returned buffer (bytes dropped or reordered)", buffer=buf)
+    # completion: decided by folding `receive` on witness frames x TCP segmentations (D12.7: data lengths 0, 1, 20, 232, 233, 600
+    # and 0x0102; the header arriving byte by byte, split 2+1+21, 3+21, 23+1, 24, 25, all but the last byte; a following frame;
+    # the peer closing inside the header / after it / inside the data) - an earlier form normalised the loop test to
+    # `len(data) - HEADER_SIZE < data_len` and alarmed when the frame length was bound to a local first
+    from .driver import _socket_rule
+
+    _socket_rule(ctx)
 
 
 @rule(P, "D12.4", "T-WRAP", floor=3)
@@ -342,58 +243,14 @@ def d12_4(ctx):
         ctx.check(not bad, ckey(f"{SOCK}:Socket.{mname}", "raises"), fn, "explicit raises are CommError", f"raises {[exc_name(r.exc) for r in bad]}")
 
 
-@rule(P, "D12.5", "T-ACC", floor=4)
+@rule(P, "D12.5", "T-WITNESS", floor=4)
 def d12_5(ctx):
-    """Send loop: total from 0, send(msg[total:]), zero -> CommError, total += sent, while total < len(msg)."""
-    cls = ctx.model.cls(f"{SOCK}:Socket")
-    fn = cls.methods.get("send")
-    if fn is None:
-        ctx.undecided(f"{SOCK}:Socket.send", cls.node, "anchor vanished")
-        return
-    msg = fn.args.args[1].arg
-    g = ctx.cfg(fn)
-    sends = [c for c in walk(fn) if isinstance(c, ast.Call) and isinstance(c.func, ast.Attribute) and c.func.attr == "send" and attr_path(c.func.value) == "self.sock"]
-    base = f"{SOCK}:Socket.send"
-    if len(sends) != 1:
-        ctx.undecided(base, fn, f"expected one sock.send call, found {len(sends)}")
-        return
-    call = sends[0]
-    st = enclosing_stmt(call)
-    arg = call.args[0] if call.args else None
-    acc = None
-    if isinstance(arg, ast.Subscript) and atom_name(arg.value) == msg and isinstance(arg.slice, ast.Slice) and arg.slice.upper is None and arg.slice.step is None and arg.slice.lower is not None:
-        acc = atom_name(arg.slice.lower)
-    ctx.check(acc is not None and isinstance(arg.slice.lower, ast.Name), ckey(base, "slice"), call, f"sends the unsent suffix {msg}[{acc}:]",
-              f"`{src(call)}` does not send the unsent suffix `{msg}[<total>:]`: bytes are repeated or skipped after a partial send", arg=src(arg) if arg else None)
-    if acc is None or not isinstance(arg.slice.lower, ast.Name):
-        return
-    sent = st.targets[0].id if isinstance(st, ast.Assign) and isinstance(st.targets[0], ast.Name) else None
-    inits = [n for n in walk(fn) if isinstance(n, ast.Assign) and any(isinstance(t, ast.Name) and t.id == acc for t in n.targets)]
-    ctx.check(len(inits) == 1 and isinstance(inits[0].value, ast.Constant) and inits[0].value.value == 0 and not _in_loop(inits[0], fn), ckey(base, "init"), inits[0] if inits else fn,
-              f"{acc} starts at 0", f"{acc} is not initialised exactly once to 0 before the loop")
-    upd = [n for n in walk(fn) if isinstance(n, ast.AugAssign) and atom_name(n.target) == acc] + \
-          [n for n in inits if _in_loop(n, fn)]
-    good_upd = len(upd) == 1 and isinstance(upd[0], ast.AugAssign) and isinstance(upd[0].op, ast.Add) and sent is not None and atom_name(upd[0].value) == sent
-    ctx.check(good_upd, ckey(base, "update"), upd[0] if upd else fn, f"{acc} += {sent} (the count just sent)", f"the running total is not advanced by exactly the number of bytes just sent ({[src(u) for u in upd]})")
-    # zero -> CommError before the update
-    zero_ok = False
-    for t in g.nodes:
-        if t.kind == "test" and sent is not None:
-            c = cmp_norm(t.ast)
-            if c and c[0] == "==0" and c[1].terms == {sent: 1} and c[1].const == 0:
-                raised, cont = branch_outcome(g, t, True)
-                if raised == {"CommError"} and not cont and upd and g.nodes_of(upd[0]) and g.branch_dominates(t, False, g.nodes_of(upd[0])[0]):
-                    zero_ok = True
-            if c and c[0] == "<=0" and c[1].terms == {sent: 1} and c[1].const == 0:  # sent <= 0
-                raised, cont = branch_outcome(g, t, True)
-                if raised == {"CommError"} and not cont:
-                    zero_ok = True
-    ctx.check(zero_ok, ckey(base, "zero"), st, "a send() returning 0 raises CommError before the total advances", "send() returning 0 (connection closed) is not turned into CommError: the loop spins forever")
-    loops = [n for n in walk(fn) if isinstance(n, ast.While)]
-    want = Lin(1, {acc: 1, f"len({msg})": -1})
-    lc = cmp_norm(loops[0].test) if len(loops) == 1 else None
-    ctx.check(lc is not None and lc[0] == "<=0" and lc[1] == want, ckey(base, "condition"), loops[0] if loops else fn, f"loops while {acc} < len({msg})",
-              f"loop condition `{src(loops[0].test) if loops else None}` is not `{acc} < len({msg})`: the last bytes are not sent or the loop never ends", got=repr(lc[1]) if lc else None)
+    """Send loop: every byte of the message is handed to the OS exactly once, in order, whatever part of it each call accepts; a
+    call that accepts nothing, or fails, is CommError.  Decided by folding `send` on witness acceptance sequences (D12.7); an
+    earlier form matched `total += sent` / `msg[total:]` by name."""
+    from .driver import _socket_rule
+
+    _socket_rule(ctx)
 
 
 @rule(P, "D12.6", "T-PROGRESS", floor=2)
